@@ -145,6 +145,37 @@ theorem emode_config_coherent (es : List Entry) (lI lM mI mM : Int) (h : validat
   have := validateEntry_ok (validateEntries_all es _ _ _ _ h1 e he) hne
   exact ⟨this.1, this.2.1, this.2.2.1, this.2.2.2.1⟩
 
+/-! ### the whole instruction (`Admin.ixConfigureBank`, diffed bit for bit against the real
+`lending_pool_configure_bank` through dispatch by the `cfgix` family) -/
+
+/-- **ix_configure_coherent**: whatever the full-configure INSTRUCTION accepts on an unfrozen bank leaves a coherent
+    configuration AND every e-mode entry the bank already holds is coherent against the NEW liability weights
+    (weights below them, leverage within the group's caps) — lowering the liability weights under a stored entry is
+    refused; on a frozen bank only the two limits can change -/
+theorem ix_configure_coherent (c c' : Cfg) (flags f' : Nat) (es : List Entry) (mi mm : Int) (o : CfgOpt)
+    (h : ixConfigureBank c flags es mi mm o = .ok (c', f')) :
+    (hasFlag flags FREEZE_SETTINGS = false →
+      Coherent c' ∧ validateEmode es c'.lInit c'.lMaint mi mm = .ok () ∧
+      (∀ e ∈ es, e.tag ≠ 0 → 0 ≤ e.init ∧ e.init ≤ e.maint ∧ e.init < c'.lInit ∧ e.maint < c'.lMaint)) ∧
+    (hasFlag flags FREEZE_SETTINGS = true → c' = configureUnfrozen c o ∧ f' = flags) := by
+  unfold ixConfigureBank at h
+  constructor
+  · intro hf
+    simp only [hf, Bool.false_eq_true, ↓reduceIte] at h
+    obtain ⟨r, hr, h⟩ := Res.bind_ok h
+    obtain ⟨u, hv, h⟩ := Res.bind_ok h
+    injection h with h
+    obtain ⟨r1, r2⟩ := r
+    injection h with h1 h2
+    subst h1; subst h2
+    cases u
+    exact ⟨configure_coherent c r1 flags r2 o hr, hv, emode_config_coherent es _ _ mi mm hv⟩
+  · intro hf
+    simp only [hf, ↓reduceIte] at h
+    injection h with h
+    injection h with h1 h2
+    exact ⟨h1.symm, h2.symm⟩
+
 /-! ### the consequence: a liquidation buffer
 
 `C04.init_implies_maint` proves, on the risk-engine model, that an account passing the initial-margin check at
